@@ -231,7 +231,8 @@ CHECKS["C01"] = dict(
     cases=dict(quick=3000, thorough=40000),
     rule="(filled below)",
     technique="property-based testing: generated planning problems per planner, independent path re-validation oracle, one forked process per case",
-    level_text="Every shipped geometric / multilevel planner that can be instantiated generically (47 registry entries) is run on generated "
+    level_text="Every shipped geometric / multilevel planner that can be instantiated generically (47 registry entries; companion C01B adds VFRRT, "
+               "TSRRT, ST-RRT* and 2-/3-level multilevel sequences through bespoke fixtures) is run on generated "
                "problems; the reported status, flags and path are judged by an oracle that shares no bookkeeping with the planner (own predicate "
                "copy, own motion-check loop). Exploration-level: a few thousand (quick) to tens of thousands (thorough) solves.",
     level_note="Trusted: harness geometry (ball / box obstacles over the x,y coordinates), the space's interpolate / distance (covered by "
@@ -239,7 +240,10 @@ CHECKS["C01"] = dict(
                "condition, never wall-clock.",
     assumptions=["Dubins / Reeds-Shepp problems use validity = satisfiesBounds && obstacles (the repository's own car demo convention)",
                  "an ompl::Exception from setup()/solve() with no path added is a clean rejection of an unsupported configuration",
-                 "planners needing bespoke fixtures (STRRTstar, TSRRT, VFRRT, XXL, Lightning/Thunder, LTL) are not exercised"],
+                 "planners needing bespoke fixtures: STRRTstar, TSRRT, VFRRT and real multi-level bundle sequences run in the companion C01B; "
+                 "XXL, Lightning/Thunder and the control LTL planner are not exercised",
+                 "C01B / ST-RRT*: the motion rule is the user's (forward in time, speed limit, points at spacing <= 0.05 valid), since a space-time "
+                 "space has an infinite extent and therefore no resolution of its own; the oracle applies the same rule with its own code"],
 )
 CHECKS["C01"]["rule"] = (
     "Case = planner (uniform over 47 registry entries incl. RRT/RRTConnect with intermediate states, 1-level multilevel planners, 2-thread pRRT/pSBL/"
@@ -252,7 +256,13 @@ CHECKS["C01"]["rule"] = (
     "(truthful INVALID_START / INVALID_GOAL / UNRECOGNIZED_GOAL_TYPE, approximate flag and difference vs the last state), first state is a valid "
     "start, all states in bounds (raw coordinates), dense validity (invalid runs <= 2r at r/20 sampling), strict re-check of every consecutive pair "
     "with the harness's own k/n loop for tree/roadmap planners. Non-trivial = a solution whose straight start-goal motion is invalid, or an "
-    "abnormal scenario; distinct = consumed byte prefix.")
+    "abnormal scenario; distinct = consumed byte prefix. "
+    "Companion C01B (bespoke fixtures, 1200 / 16000 cases): (38%) QRRT / QRRTStar / QMP / QMPStar on real bundle sequences R2<SE2, R3<SE3, "
+    "R2<R^n, R2<R^m<R^n, relaxation R2<R2 (a lower level sees all or a subset of the obstacles); (15%) VFRRT on R^n with a generated vector field "
+    "(drift, sink, rotation, none) and exploration / lambda / update-frequency settings; (15%) TSRRT on R^n with the (x,y) task space and a lift that "
+    "may fail; (31%) ST-RRT* on R^2 x time with a speed limit, static obstacles and a moving ball, bounded or unbounded time, generated rewiring / batch / "
+    "time-bound-factor settings; each under a history solve [-> continued solve | clear + solve]* with the same oracle (for ST-RRT*: every consecutive "
+    "pair passes the user's motion rule again, time within bounds, start at t = 0).")
 
 CHECKS["C03"] = dict(
     src="harness/C03_history.cpp",
